@@ -636,6 +636,7 @@ fn subsample<T: Clone>(xs: &[T], max: usize) -> Vec<T> {
 pub fn field_offsets(seed: &Seed, max_offsets: usize, beyond_samples: usize) -> Vec<usize> {
     let len = seed.bytes.len();
     let mut must: BTreeSet<usize> = BTreeSet::new(); // chunk headers & declared regions
+    let mut small: BTreeSet<usize> = BTreeSet::new(); // offsets of short declared tables (always kept)
     let mut more: BTreeSet<usize> = BTreeSet::new();
     match &seed.layout {
         Layout::Fixed { regions } => {
@@ -643,6 +644,11 @@ pub fn field_offsets(seed: &Seed, max_offsets: usize, beyond_samples: usize) -> 
                 let mut o = *s & !1;
                 while o < (s + l).min(len) {
                     must.insert(o);
+                    // short tables behind the header (a view record, a two-entry table) are count/offset records through and
+                    // through: they are never thinned out by the per-seed cap
+                    if *l <= 128 && *s > 0 {
+                        small.insert(o);
+                    }
                     o += 2;
                 }
             }
@@ -679,7 +685,15 @@ pub fn field_offsets(seed: &Seed, max_offsets: usize, beyond_samples: usize) -> 
     }
     let must: Vec<usize> = must.into_iter().filter(|o| *o < len).collect();
     let more: Vec<usize> = more.into_iter().filter(|o| *o < len && must.binary_search(o).is_err()).collect();
-    let mut out = if must.len() >= max_offsets { subsample(&must, max_offsets) } else { must.clone() };
+    let mut out = if must.len() >= max_offsets {
+        let keep: Vec<usize> = small.iter().copied().filter(|o| *o < len).collect();
+        let rest: Vec<usize> = must.iter().copied().filter(|o| !small.contains(o)).collect();
+        let mut v = subsample(&rest, max_offsets.saturating_sub(keep.len()).max(max_offsets / 2));
+        v.extend(keep);
+        v
+    } else {
+        must.clone()
+    };
     if out.len() < max_offsets {
         out.extend(subsample(&more, max_offsets - out.len()));
     }
